@@ -147,9 +147,10 @@ def run_group(g, woven, scratch, want_trace=False):
     entry = g['entry']
     a_gb = os.path.join(gdir, 'a.gb')
     b_gb = os.path.join(gdir, 'b.gb')
-    cc = ['goto-cc', '-DLHASA_VERIF', '-DHAVE_CONFIG_H', '-I', woven, '-I', os.path.join(woven, 'lib'),
-          '-I', os.path.join(woven, 'lib', 'public'), '-I', os.path.join(woven, 'src'),
-          '-I', os.path.join(VERIF, 'harness')]
+    src_root = REPO if g.get('unwoven') else woven
+    cc = ['goto-cc', '-DLHASA_VERIF', '-DHAVE_CONFIG_H', '-I', src_root, '-I', os.path.join(src_root, 'lib'),
+          '-I', os.path.join(src_root, 'lib', 'public'), '-I', os.path.join(src_root, 'src'),
+          '-I', os.path.join(VERIF, 'harness'), '-I', woven]
     cc += ['-D' + d for d in g['defs']]
     cc += ['--function', entry, harness, '-o', a_gb]
     rc, out, t = run_cmd(cc, 120, 8)
@@ -290,10 +291,10 @@ def scan_assumptions(groups):
 # ------------------------------------------------------------------ property run ----------------
 
 def select(groups, pid, tier, only=None):
-    sel = [g for g in groups if pid in g['props'] and tier in g['tiers']]
     if only:
-        sel = [g for g in sel if any(re.search(o, g['id']) for o in only)]
-    return sel
+        # debugging / refuter runs: select by id regardless of property and tier
+        return [g for g in groups if any(re.search(o, g['id']) for o in only)]
+    return [g for g in groups if pid in g['props'] and tier in g['tiers']]
 
 def tier_adjust(g, tier):
     g = dict(g)
@@ -306,12 +307,31 @@ def run_groups(sel, tier, scratch, keep=False):
     woven = os.path.join(scratch, 'woven')
     rep = weave.weave_tree(REPO, os.path.join(VERIF, 'contracts'), woven)
     sel = [tier_adjust(g, tier) for g in sel]
+    # functions whose contract anchors no longer fire (code changed shape): contract-instrumented groups that
+    # involve them cannot be decided; plain-route groups still run the real code
+    broken = {}
+    for relpath, fn, why in rep.get('skipped', []):
+        broken[fn] = why
+        log('WEAVE: contract anchors of %s in %s do not fire: %s' % (fn, relpath, why))
+    pre = []
+    if broken:
+        keep = []
+        for g in sel:
+            names = set([g.get('enforce')] + list(g.get('replace', [])) + list(g.get('functions', []))) - {None}
+            hit = [n for n in names if n in broken]
+            if hit and g['route'] != 'plain':
+                pre.append(dict(id=g['id'], status='undecided', reason='extraction break: contract anchors of %s do not fire (%s)' % (hit[0], broken[hit[0]]),
+                                obligations=[], solver_s=0.0, build_s=0.0, backend=None, level=g['level'], functions=g['functions'],
+                                props=g['props'], bound=g.get('bound'), route=g['route'], enforce=g.get('enforce'), replace=g.get('replace', [])))
+            else:
+                keep.append(g)
+        sel = keep
     # longest first
     sel.sort(key=lambda g: -g.get('cost', g['timeout']))
     with ThreadPoolExecutor(max_workers=JOBS) as ex:
         futs = [ex.submit(run_group, g, woven, scratch) for g in sel]
         results = [f.result() for f in futs]
-    return results, rep, woven
+    return results + pre, rep, woven
 
 def main(argv):
     import argparse
